@@ -205,3 +205,28 @@ Definition select_txs (p : pool) (sess : session) (gasRequested : N) (maxNum : n
 Definition pool_for_sender (p : pool) (a : bytes) : list tx :=
   match alookup (senders p) a with Some sl => items sl | None => [] end.
 Definition keys (p : pool) : list bytes := map fst (byHash p).
+
+(** ---------- histories ---------- *)
+
+Inductive pop : Type :=
+| PAdd (t : tx)
+| PRemove (h : bytes)
+| PClear
+| PSelect (sess : session) (gasRequested : N) (maxNum : nat).
+
+Definition pstep (cfg : config) (p : pool) (o : pop) : pool :=
+  match o with
+  | PAdd t => fst (add_tx cfg p t)
+  | PRemove h => fst (remove_tx p h)
+  | PClear => clear p
+  | PSelect _ _ _ => p          (* selection works on a snapshot and leaves the pool unchanged *)
+  end.
+
+Definition run_pool (cfg : config) (ops : list pop) : pool := fold_left (pstep cfg) ops empty_pool.
+
+Fixpoint added_txs (ops : list pop) : list tx :=
+  match ops with
+  | [] => []
+  | PAdd t :: r => t :: added_txs r
+  | _ :: r => added_txs r
+  end.
